@@ -311,11 +311,17 @@ fn run_case(c: &Case) -> (Vec<Alarm>, Vec<String>, u64, u64) {
                 alarm("completes", "dispatch-error", format!("dispatch failed: {}", e));
                 break;
             }
-            if check_idle(t.elapsed(), polls.get() != before, &alarms) {
+            // the state must persist over two consecutive dispatches: the first one may have ended with the
+            // event just handled (task woken, to be polled by the next dispatch)
+            let staged: std::cell::RefCell<Vec<Alarm>> = std::cell::RefCell::new(Vec::new());
+            if check_idle(t.elapsed(), polls.get() != before, &staged) {
                 idle_hits += 1;
                 if idle_hits >= 2 {
+                    alarms.borrow_mut().extend(staged.into_inner());
                     break;
                 }
+            } else {
+                idle_hits = 0;
             }
             if sh.io_error.borrow().is_some() {
                 break;
